@@ -13,7 +13,8 @@ use crate::runner::*;
 use crate::util::*;
 use num_rational::Rational64 as Q;
 use proptest::prelude::*;
-use rust_dsymbols::covers::{covers, finite_universal_cover, subgroup_cover};
+use rust_dsymbols::covers::{cover_for_table, covers, finite_universal_cover, subgroup_cover};
+use rust_dsymbols::fpgroups::cosets::{coset_tables, CosetTable};
 use rust_dsymbols::derived::oriented_cover;
 use rust_dsymbols::fpgroups::free_words::FreeWord;
 use rust_dsymbols::fundamental_group::fundamental_group;
@@ -206,6 +207,129 @@ pub const SUB_COV: Sub<CovCase> = Sub {
     journal: false,
 };
 
+
+/// cover_for_table on coset-table objects with a history: one `CosetTable` value is filled through the
+/// public `set`, used, overwritten with another valid table of the same group and used again
+#[derive(Clone, Debug, Hash)]
+pub struct TabCase {
+    pub ds: DS,
+    /// row bound for the pool of tables
+    pub k: usize,
+    /// (which table of the pool, renumbering of its rows as transpositions, keep using the previous object?, call through a clone?)
+    pub steps: Vec<(u32, Vec<(u32, u32)>, bool, bool)>,
+}
+
+impl Case for TabCase {
+    fn encode(&self) -> Value {
+        json!({"symbol": self.ds.encode(), "max_rows": self.k, "steps": self.steps.iter().map(|(p, sw, reuse, cl)| json!({"pick": p, "row_swaps": sw.iter().map(|s| json!([s.0, s.1])).collect::<Vec<_>>(), "reuse_object": reuse, "through_clone": cl})).collect::<Vec<_>>()})
+    }
+    fn decode(v: &Value) -> Option<Self> {
+        let steps = v.get("steps")?.as_array()?.iter().map(|s| {
+            Some((s.get("pick")?.as_u64()? as u32, s.get("row_swaps")?.as_array()?.iter().filter_map(|p| Some((p.get(0)?.as_u64()? as u32, p.get(1)?.as_u64()? as u32))).collect(), s.get("reuse_object")?.as_bool()?, s.get("through_clone")?.as_bool()?))
+        }).collect::<Option<Vec<_>>>()?;
+        Some(TabCase { ds: DS::decode(v.get("symbol")?)?, k: v.get("max_rows")?.as_u64()? as usize, steps })
+    }
+    fn weight(&self) -> usize {
+        self.ds.size * (self.k + 1) + self.steps.len()
+    }
+    fn hash64(&self) -> u64 {
+        h64(self)
+    }
+}
+
+/// rows of a table renumbered by a permutation of 0..n (given 1-based by perm_from_swaps)
+pub fn renumber_rows(t: &Table, swaps: &[(u32, u32)]) -> Table {
+    let n = t.len();
+    let p1 = perm_from_swaps(n, swaps);
+    let p: Vec<usize> = (0..n).map(|r| p1[r + 1] - 1).collect();
+    let mut fwd = vec![vec![0usize; t.nr_gens]; n];
+    for r in 0..n {
+        for g in 0..t.nr_gens {
+            fwd[p[r]][g] = p[t.fwd[r][g]];
+        }
+    }
+    Table::from_forward(t.nr_gens, fwd).expect("renumbered permutation table")
+}
+
+/// overwrite (or create) a crate table object so that it holds `t`
+pub fn install_table(obj: &mut CosetTable, t: &Table) {
+    for r in 0..t.len() {
+        for g in 1..=t.nr_gens as isize {
+            obj.set(r, g, t.fwd[r][(g - 1) as usize]);
+            obj.set(r, -g, t.bwd[r][(g - 1) as usize]);
+        }
+    }
+}
+
+fn check_tab(c: &TabCase, obs: &mut Obs) -> Result<(), String> {
+    let x = &c.ds;
+    ensure!(x.is_complete() && x.ops_are_involutions() && x.v_consistent() && x.is_connected() && x.commutes(), "harness: case is not a connected complete D-symbol");
+    let px = x.to_partial();
+    let fg = fundamental_group(&px);
+    let g = fg.nr_generators();
+    let rels: Vec<Word> = fg.relators.iter().map(|w| w.iter().map(|&l| l as i64).collect()).collect();
+    // pool: the crate's own low-index tables, each re-validated as a transitive action satisfying the relators
+    let mut pool: Vec<Table> = vec![];
+    for t in coset_tables(g, &fg.relators, c.k).take(60) {
+        match crate::props::c11::read_table(&t, g) {
+            Ok(own) if own.is_transitive() && own.relators_close(&rels).is_none() => pool.push(own),
+            _ => obs.class("a low-index table is not a valid action (left to C12)"),
+        }
+    }
+    if pool.is_empty() || g == 0 {
+        obs.class("no table pool");
+        obs.nontrivial(false);
+        return Ok(());
+    }
+    let n = x.size;
+    let words: BTreeMap<(usize, usize), Word> = fg.edge_to_word.iter().map(|(&k, w)| (k, w.iter().map(|&l| l as i64).collect())).collect();
+    let long_word = words.values().any(|w| w.len() >= 2);
+    let mut obj: Option<CosetTable> = None;
+    let mut reused = false;
+    let mut max_sheets = 0;
+    for (step, (pick, swaps, reuse, through_clone)) in c.steps.iter().enumerate() {
+        let t = renumber_rows(&pool[pick_index(*pick, pool.len())], swaps);
+        let keep = *reuse && obj.as_ref().map_or(false, |o| o.len() <= t.len());
+        if !keep {
+            obj = Some(CosetTable::new(g));
+        } else {
+            reused = true;
+        }
+        let o = obj.as_mut().unwrap();
+        install_table(o, &t);
+        ensure!(o.len() == t.len(), "step {}: a CosetTable filled through set() with {} rows reports len() = {}", step + 1, t.len(), o.len());
+        let y = if *through_clone { let cl = o.clone(); DS::from_dsym(&cover_for_table(&px, &cl, &fg.edge_to_word)) } else { DS::from_dsym(&cover_for_table(&px, o, &fg.edge_to_word)) };
+        let what = format!("step {}: cover_for_table with a {}-row table{}", step + 1, t.len(), if keep { " (object used before with another table)" } else { "" });
+        ensure!(y.size == n * t.len() && y.dim == x.dim, "{}: result has {} chambers, expected {} x {}", what, y.size, t.len(), n);
+        for s in 0..t.len() {
+            for d in 1..=n {
+                for i in 0..=x.dim {
+                    let w = words.get(&(d, i)).cloned().unwrap_or_default();
+                    let want = t.trace(s, &w) * n + x.op[i][d];
+                    let got = y.op[i][s * n + d];
+                    ensure!(got == want, "{}: chamber {} on sheet {} is glued across index {} to chamber {}, but the facet's word {:?} leads from row {} to row {} (expected chamber {})", what, d, s, i, got, w, s, t.trace(s, &w), want);
+                }
+            }
+        }
+        let k = check_cover(x, &y, &what)?;
+        ensure!(k == t.len(), "{}: {} sheets", what, k);
+        max_sheets = max_sheets.max(k);
+    }
+    obs.classify(reused, "a table object reused after being overwritten");
+    obs.classify(long_word, "base has a facet word of length >= 2");
+    obs.nontrivial(reused && max_sheets >= 2);
+    obs.class(&format!("dim {}", x.dim));
+    Ok(())
+}
+
+pub const SUB_TAB: Sub<TabCase> = Sub {
+    name: "cover_for_table",
+    rule: "(connected symbol, row bound, history of tables): one CosetTable value is filled through set(), handed to cover_for_table (directly or through a clone), overwritten with another valid transitive table of the fundamental group (rows renumbered at random) and used again; every result must glue chamber d of sheet s across i to the sheet reached by the facet's word in the table the object holds NOW, and be a covering under the documented projection; non-trivial = an object reused with >= 2 sheets",
+    check: check_tab,
+    panic_discards: &["Reached coset table limit"],
+    journal: false,
+};
+
 /// Number of covers with <= k sheets if it is at most `limit`: a selection guard for the deep
 /// layer (a prefix of the crate's own low-index iterator; nothing is asserted about it here)
 fn cover_count_within(x: &DS, k: usize, limit: usize) -> Option<usize> {
@@ -316,6 +440,16 @@ pub fn run(ctx: &mut Ctx) {
     ctx.layer("random");
     let pool = std::sync::Arc::new(dsets);
     let n = t.pick(20_000u32, 200_000u32);
+    {
+        // table objects with a history
+        let pool = pool.clone();
+        let sw = || prop::collection::vec((any::<u32>(), any::<u32>()), 0..4);
+        ctx.run_prop(
+            &SUB_TAB,
+            move || (pooled_symbol(pool.clone()), 2usize..=4, prop::collection::vec((any::<u32>(), sw(), prop::bool::weighted(0.8), any::<bool>()), 1..=4)).prop_map(|(ds, k, steps)| TabCase { ds, k, steps }),
+            n / 2,
+        );
+    }
     ctx.run_prop(
         &SUB_COV,
         move || {
@@ -331,6 +465,7 @@ pub fn run(ctx: &mut Ctx) {
 pub fn replay(ctx: &mut Ctx, sub: &str, case: &Value) -> Option<Result<(), String>> {
     Some(match sub {
         "covers" => ctx.run_one(&SUB_COV, &CovCase::decode(case)?),
+        "cover_for_table" => ctx.run_one(&SUB_TAB, &TabCase::decode(case)?),
         _ => return None,
     })
 }
